@@ -23,6 +23,9 @@
 #include <unistd.h>
 
 size_t __sanitizer_get_current_allocated_bytes(void);
+#ifdef YARA_VERIF
+extern size_t yr_verif_arena_initial_size;   /* hook H1 (compiler.c) */
+#endif
 
 #define MAXSLOT 64
 #define MAXDATA 4096
@@ -587,6 +590,9 @@ int main(int argc, char** argv)
       else if (!strcmp(tok[1], "hang")) hang_seconds = atoi(tok[2]);
       else if (!strcmp(tok[1], "failat")) { yv_fail_at = atol(tok[2]); yv_alloc_count = 0; yv_fault_enabled = 1; }
       else if (!strcmp(tok[1], "failsticky")) yv_fail_sticky = atoi(tok[2]);
+#ifdef YARA_VERIF
+      else if (!strcmp(tok[1], "arenasize")) yr_verif_arena_initial_size = strtoull(tok[2], 0, 10);
+#endif
       else if (!strcmp(tok[1], "failoff")) { yv_fault_enabled = 0; yv_fail_at = -1; }
       else die("unknown opt %s", tok[1]);
     }
@@ -744,6 +750,7 @@ int main(int argc, char** argv)
       NEED(2);
       int rr = slot(tok[1], MAXSLOT);
       int r;
+      if (!rulesets[rr]) { fprintf(out, "{\"e\":\"Save\",\"rid\":%d,\"ret\":-1,\"skipped\":\"no rules\"}\n", rr); continue; }
       if (!strcmp(op, "save")) r = yr_rules_save(rulesets[rr], tok[2]);
       else
       {
@@ -760,6 +767,7 @@ int main(int argc, char** argv)
       NEED(2);
       int rr = slot(tok[1], MAXSLOT);
       int r;
+      if (access(tok[2], R_OK) != 0) { fprintf(out, "{\"e\":\"Load\",\"rid\":%d,\"ret\":-1,\"skipped\":\"no file\"}\n", rr); continue; }
       if (!strcmp(op, "load")) r = yr_rules_load(tok[2], &rulesets[rr]);
       else
       {
@@ -773,6 +781,64 @@ int main(int argc, char** argv)
       fprintf(out, "{\"e\":\"Load\",\"rid\":%d,\"via\":\"%s\",\"ret\":%d", rr, op, r);
       if (r == ERROR_SUCCESS) fprintf(out, ",\"num_rules\":%u,\"num_strings\":%u", rulesets[rr]->num_rules, rulesets[rr]->num_strings);
       fputs("}\n", out);
+    }
+    else if (!strcmp(op, "prefixsweep") || !strcmp(op, "corrupt"))
+    {
+      /* prefixsweep <path> <lo> <hi> <chunked 0|1>      : load every prefix n in [lo, hi) of the file
+         corrupt <path> <off> <width> <value> <chunked> : overwrite <width> bytes at <off> (little endian) and load */
+      NEED(4);
+      fflush(out);
+      FILE* f = fopen(tok[1], "rb");
+      if (!f) die("cannot open %s", tok[1]);
+      fseek(f, 0, SEEK_END); long L = ftell(f); fseek(f, 0, SEEK_SET);
+      uint8_t* img = (uint8_t*) malloc(L + 16);
+      if (L && fread(img, 1, L, f) != (size_t) L) die("short read");
+      fclose(f);
+      char path[512];
+      snprintf(path, sizeof path, "%s/prefix.bin", tmpdir);
+      int is_sweep = !strcmp(op, "prefixsweep");
+      long lo = is_sweep ? atol(tok[2]) : 0, hi = is_sweep ? atol(tok[3]) : 1;
+      int chunked = atoi(tok[is_sweep ? 4 : 5]);
+      if (!is_sweep)
+      {
+        long off = atol(tok[2]); int width = atoi(tok[3]); unsigned long long val = strtoull(tok[4], 0, 10);
+        for (int i = 0; i < width && off + i < L; i++) img[off + i] = (uint8_t) (val >> (8 * i));
+        fprintf(out, "{\"e\":\"Corrupt\",\"off\":%ld,\"width\":%d,\"val\":%llu,\"len\":%ld,\"rets\":[", off, width, val, L);
+      }
+      else
+        fprintf(out, "{\"e\":\"PrefixSweep\",\"lo\":%ld,\"hi\":%ld,\"len\":%ld,\"rets\":[", lo, hi, L);
+      for (long n = lo; n < hi; n++)
+      {
+        long plen = is_sweep ? n : L;
+        FILE* w = fopen(path, "wb");
+        if (plen) fwrite(img, 1, plen, w);
+        fclose(w);
+        YR_RULES* rl = NULL;
+        int r;
+        alarm(hang_seconds);
+        if (!chunked) r = yr_rules_load(path, &rl);
+        else
+        {
+          STRM st = {fopen(path, "rb"), 0, 1, 0, 0};
+          YR_STREAM ys; ys.user_data = &st; ys.read = strm_read; ys.write = NULL;
+          r = yr_rules_load_stream(&ys, &rl);
+          fclose(st.f);
+        }
+        int scanret = -1;
+        if (r == ERROR_SUCCESS && rl != NULL)
+        {
+          /* characterise a load that should not have succeeded: scan a small buffer under the sanitizer */
+          CBCTX cb; memset(&cb, 0, sizeof cb); cb.quiet_nomatch = 1; cb.sid = 99;
+          FILE* keep = out; out = fopen("/dev/null", "w");
+          scanret = yr_rules_scan_mem(rl, (const uint8_t*) "MK1;..MK2;#1#+2+abc", 19, 0, scan_cb, &cb, 5);
+          fclose(out); out = keep;
+          yr_rules_destroy(rl);
+        }
+        fprintf(out, "%s[%d,%d]", n == lo ? "" : ",", r, scanret);
+      }
+      fputs("]}\n", out);
+      unlink(path);
+      free(img);
     }
     else if (!strcmp(op, "rdestroy"))
     {
@@ -929,6 +995,7 @@ int main(int argc, char** argv)
 #endif
       fprintf(out, "{\"e\":\"LeakCheck\",\"bytes\":%zu}\n", bytes);
     }
+    else if (!strcmp(op, "rmfile")) { NEED(1); unlink(tok[1]); }
     else if (!strcmp(op, "reset")) { fputs("{\"e\":\"Reset\"}\n", out); }
     else if (!strcmp(op, "note")) { NEED(1); fputs("{\"e\":\"Note\",\"text\":", out); jcstr(tok[1]); fputs("}\n", out); }
     else if (!strcmp(op, "allocs")) { fprintf(out, "{\"e\":\"Allocs\",\"count\":%ld,\"injected\":%ld}\n", yv_alloc_count, yv_faults_injected); }
